@@ -265,6 +265,15 @@ def fact_map(cs, dec):
 
 
 
+def is_bnode_valueset_finding(text, err, cfg, triples, inst_prop):
+    """signature of C05-BNODEVALUESET: with inverse_paths, a class that is itself an instance and has a blank-node instance gets
+    '^rdf:type [_:b]', for which sheXer prints '[@<id>]' - not ShExC (a blank node has no value-set rendering)"""
+    if "bad value set member ('punct', '@')" not in str(err) or "[@<" not in text or not cfg.get("inverse_paths"):
+        return False
+    instances = {s[1] for s, p, o in triples if p == inst_prop}
+    return any(p == inst_prop and s[0] == "bnode" and o[1] in instances for s, p, o in triples)
+
+
 class OneSided(Exception):
     """some of the outputs that should be compared parse, others do not: that is a difference, not a discard"""
 
